@@ -110,7 +110,7 @@ class C12(PropBase):
             # time-only text for date-bearing targets is placed on "today": the same text again after the
             # day has changed must be placed on the new day (lenient spellings included - what the date
             # parser accepts, not only what isoformat() writes)
-            pool = ["9:30", "1:2:3", "09:30:5", "1:00", "12:00", "T1200", "23:59:59.5", "0:0"]
+            pool = ["9:30", "1:2:3", "09:30:5", "1:00", "12:00", "T1200", "23:59:59.5", "0:0", "now", "now"]
             tv = [(x, x) for x in rng.sample(pool, 3)]
             items.append({"variants": [{"k": "dt"}, {"k": "date"}, {"k": "list", "a": {"k": "dt"}}], "vals": tv, "timeonly": True})
             items.append(items[-1])
